@@ -600,6 +600,8 @@ def check_group_key(ctx: Check, tree: Tree, state_identity: bool = True) -> None
 
 def run(ctx: Check, tree: Tree) -> None:
     ctx.decided += [
+        'R-GROUPKEY (state identity): the group key keeps which outer state carries which (particle, projection)',
+        'R-FOLD (components): the A_{...} component of a chain accumulates over the identical-particle permutations that share its label',
         "R-TERM (shared with C13): the lineshape of a node is evaluated on that node's own variables - invariant mass, daughter masses and the L of the node (fallbacks only where the transition specifies no L)",
         "R-TERM: Wigner-D roles (J, m of the parent; l1 - l2 of children[0], children[1]; -phi, theta, 0) and both Clebsch-Gordan coefficients equal the formula in the property",
         "R-GROUPKEY: group_by_spin_projection separates transitions by (particle name, spin projection) of every outer state without lossy conversion",
